@@ -6,7 +6,9 @@
    exposed attribute expression in the decoding context (diagnostics as summary ids,
    positive = error, negative = warning).  Also a two-step observation on the body of
    every top-level block: PartialContent with one half of the child schema, then
-   Content of the remaining body with the other half. *)
+   Content of the remaining body with the other half.  And multi-step histories of the
+   whole body (msch / gmtree below): the names of every level split into parts, read part
+   after part over the chain of remaining bodies. *)
 From Coq Require Import QArith String.
 From HclV Require Import Base.Prelude Cty.Values Cty.Convert Cty.Ops Eval.Impl Eval.Funcs
   Dyn.Expand Dyn.Unroll.
@@ -23,6 +25,25 @@ Record gshallow := mkGS {
   gs_blocks : list (list Z * list (list Z) * marks * bool)   (* type, labels, body marks, unknown *)
 }.
 
+(* ---- multi-step histories --------------------------------------------------------------------
+   A body read in SEVERAL steps: per level of the specification tree a list of steps, each
+   (partial, attributes, block types with label count and the history of their bodies):
+   partial = true is Body.PartialContent with the step's schema, the next step is made on
+   the REMAINING body it returns (hcldec.PartialDecode, gohcl `remain`); partial = false is
+   Body.Content (the next step, if any, is made on the same body).  [MJust]: the body is
+   read with JustAttributes.  A history with one Content step at every level is what
+   [observe_x] reads.  Observed per step: error-ness of the call, the returned attributes
+   evaluated in the decoding context, the returned blocks (type, labels, observation of
+   the body under the block's own history), and the value marks / unknown-ness of the body
+   the call was made on. *)
+Inductive msch :=
+| MSch (steps : list (bool * list (list Z * bool) * list (list Z * Z * msch)))
+| MJust.
+
+Inductive gmtree :=
+| GM (steps : list (bool * list (list Z * (val * list Z))
+                    * list (list Z * list (list Z) * gmtree) * marks * bool)).
+
 Record xcase := mkXCase {
   k_sch : sch;
   k_body : dbody;
@@ -33,7 +54,9 @@ Record xcase := mkXCase {
   k_two : list (option (gshallow * gshallow));  (* per top-level block, None: not observed *)
   (* root names of the traversals reported by dynblock.ExpandVariablesHCLDec and by
      dynblock.VariablesHCLDec for the body and the specification; None: not observed *)
-  k_vars : option (list (list Z) * list (list Z))
+  k_vars : option (list (list Z) * list (list Z));
+  (* multi-step histories (below) with what was observed; []: none observed *)
+  k_multi : list (msch * gmtree)
 }.
 
 Definition diag_ids (ds : list diag) : list Z :=
@@ -132,10 +155,84 @@ Definition twos_status (c : xcase) : Z :=
   | SJust => 0
   end.
 
+(* ---- multi-step histories: what the model exposes ------------------------------------------------
+   err, attributes, blocks, body marks, unknown, unsup — per step *)
+Inductive omtree :=
+| OM (steps : list (bool * list (list Z * (val * list diag))
+                    * list (list Z * list (list Z) * omtree) * marks * bool * bool)).
+
+Fixpoint observe_m (M : msch) (rho : ctx) {struct M} : xbody -> omtree :=
+  match M with
+  | MJust => fun x =>
+      let '(attrs, err) := xb_just_attributes x in
+      OM [(err, map (fun a => (fst a, xvalue rho (snd a))) attrs, [], xb_marks x, xb_unknown x, false)]
+  | MSch steps => fun x =>
+      OM ((fix go (steps : list (bool * list (list Z * bool) * list (list Z * Z * msch))) (x : xbody)
+             {struct steps} :=
+             match steps with
+             | [] => []
+             | (partial, attrs, blocks) :: rest =>
+                 let subs := map (fun p : list Z * Z * msch => (fst (fst p), observe_m (snd p) rho)) blocks in
+                 let s := mkSchema attrs (map (fun p : list Z * Z * msch => (fst (fst p), snd (fst p))) blocks) in
+                 let '(c, r) := if partial : bool then xb_partial_content s x else (xb_content s x, x) in
+                 (xc_err c,
+                  map (fun a => (fst a, xvalue rho (snd a))) (xc_attrs c),
+                  map (fun blk => (xb_type blk, xb_labels blk,
+                                   match afind (xb_type blk) subs with
+                                   | Some f => f (xb_body blk)
+                                   | None => OM []
+                                   end)) (xc_blocks c),
+                  xb_marks x, xb_unknown x, xc_unsup c) :: go rest r
+             end) steps x)
+  end.
+
+(* 0 = agree, 1 = disagree, 2 = skipped *)
+Fixpoint mtree_status (o : omtree) (g : gmtree) {struct o} : Z :=
+  match o, g with
+  | OM osteps, GM gsteps =>
+      (fix steps (os : list (bool * list (list Z * (val * list diag))
+                             * list (list Z * list (list Z) * omtree) * marks * bool * bool))
+                 (gs : list (bool * list (list Z * (val * list Z))
+                             * list (list Z * list (list Z) * gmtree) * marks * bool)) : Z :=
+         match os, gs with
+         | [], [] => 0
+         | (err, attrs, blocks, bm, unk, unsup) :: os', (gerr, gattrs, gblocks, gbm, gunk) :: gs' =>
+             st_join
+               (if unsup : bool then 2 else
+                let here := if Bool.eqb err gerr && zlist_eqb bm gbm && Bool.eqb unk gunk then 0 else 1 in
+                let sub := (fix go (bs : list (list Z * list (list Z) * omtree))
+                                   (gbs : list (list Z * list (list Z) * gmtree)) : Z :=
+                              match bs, gbs with
+                              | [], [] => 0
+                              | (t, ls, o') :: bs', (gt, gls, g') :: gbs' =>
+                                  st_join (if str_eqb t gt && strs_eqb ls gls then mtree_status o' g' else 1)
+                                          (go bs' gbs')
+                              | _, _ => 1
+                              end) blocks gblocks in
+                st_join here (st_join (attrs_status attrs gattrs) sub))
+               (steps os' gs')
+         | _, _ => 1
+         end) osteps gsteps
+  end.
+
+(* every history starts from a fresh expanded body *)
+Definition multis_status (c : xcase) : Z :=
+  fold_right (fun (mg : msch * gmtree) acc =>
+                st_join (mtree_status (observe_m (fst mg) (k_dctx c) (Expand (k_body c) (k_ectx c))) (snd mg)) acc)
+             0 (k_multi c).
+
+(* the history hcldec.Decode makes: one Content step at every level *)
+Fixpoint one_step (S : sch) : msch :=
+  match S with
+  | SJust => MJust
+  | Sch attrs blocks =>
+      MSch [(false, attrs, map (fun p : list Z * Z * sch => (fst (fst p), snd (fst p), one_step (snd p))) blocks)]
+  end.
+
 Definition case_status (c : xcase) : Z :=
   if k_mode c =? 2 then 2 else
   let o := observe_x (k_sch c) (k_dctx c) (Expand (k_body c) (k_ectx c)) in
-  let s := st_join (tree_status o (k_obs c)) (twos_status c) in
+  let s := st_join (st_join (tree_status o (k_obs c)) (twos_status c)) (multis_status c) in
   if (s =? 1) && tree_unsup o then 2 else s.
 
 (* ---- the reported variables (variables.go) ---------------------------------------------------- *)
